@@ -27,6 +27,7 @@ type DecEval struct {
 	Loads      map[string]bool
 	Externs    []string
 	ExternArg  map[string][]ai.Value
+	ExternPath map[string]ai.Deps // path condition (symbols branched on) under which the host call was reached
 	Panics     []ssa.Instruction
 	HostPanics []ssa.Instruction
 	Exits      []ssa.Instruction
@@ -306,9 +307,15 @@ func (c *Ctx) observeHooks(ev *DecEval) ai.Hooks {
 				ev.Loads[c.cellLabel(ai.CellKey{Obj: p.Obj.ID, Path: ai.NormPath(p.Path)})] = true
 			}
 		},
-		Extern: func(_ *ai.State, at ssa.Instruction, name string, a []ai.Value) {
+		Extern: func(st *ai.State, at ssa.Instruction, name string, a []ai.Value) {
 			ev.Externs = append(ev.Externs, name)
 			ev.ExternArg[name] = a
+			if ev.ExternPath == nil {
+				ev.ExternPath = map[string]ai.Deps{}
+			}
+			if st != nil {
+				ev.ExternPath[name] = ai.Union(ev.ExternPath[name], st.PathDeps)
+			}
 		},
 		Panic: func(st *ai.State, at ssa.Instruction) {
 			if it.DependsOnHost(st.PathDeps) {
@@ -451,4 +458,48 @@ func addrOffset(idx *ai.Int, addrSym ai.Sym, lo, hi int) (off int64, ok bool) {
 		return 0, false
 	}
 	return -int64((lo >> uint(k)) << uint(k)), true
+}
+
+// readReturnsLoadedByte evaluates a decoder read of [lo,hi] with every array-element load replaced by
+// one marker byte and reports whether the value returned is exactly that marker, bit for bit, on every
+// path: a handler that sometimes answers with a constant instead (a lock-out, a busy state) or that
+// post-processes the byte fails.  n is the number of element loads seen.
+func (c *Ctx) readReturnsLoadedByte(lo, hi int, setup func(*ai.State)) (ok bool, n int, got string) {
+	it := c.W.It
+	fn := c.decoderFn(false)
+	mp := c.mapperPtr()
+	if fn == nil || mp == nil {
+		return false, 0, "decoder not found"
+	}
+	st := it.StateOn(c.W.Generic)
+	if setup != nil {
+		setup(st)
+	}
+	addr, _ := c.addrValue(lo, hi)
+	marker := it.NewSym("loaded-byte", ai.CellKey{})
+	it.Hooks = ai.Hooks{
+		LoadOverride: func(_ *ai.State, _ ssa.Instruction, p *ai.Ptr, v ai.Value) (ai.Value, bool) {
+			if p == nil || !strings.Contains(p.Path, "[") {
+				return nil, false
+			}
+			if iv, isInt := v.(*ai.Int); !isInt || iv.W != 8 {
+				return nil, false
+			}
+			n++
+			return ai.NewSymInt(8, false, marker), true
+		},
+	}
+	res, post := it.CallFunction(st, fn, []ai.Value{mp, addr}, nil)
+	it.Hooks = ai.Hooks{}
+	iv, isInt := res.(*ai.Int)
+	if post == nil || !isInt {
+		return false, n, ai.ValueString(res)
+	}
+	ok = true
+	for i := 0; i < 8; i++ {
+		if !isSrcBit(iv.Bits[i], marker, i) {
+			ok = false
+		}
+	}
+	return ok, n, ai.ValueString(res)
 }
